@@ -378,6 +378,13 @@ type finding struct {
 
 func caseSize(c caseT) int {
 	size := len(c.In)*1000 + len(c.Out)
+	for _, n := range c.In { // deterministic representative among equally small cases
+		for i := range kinds {
+			if kinds[i].Name == n {
+				size += i
+			}
+		}
+	}
 	for i, a := range c.Args {
 		if a != neutral(kindByName(c.In[i])) {
 			size += 10
